@@ -45,6 +45,8 @@ enum Op {
     Close,
     /// peer closes the current connection and stops listening in the same instant (peer dies)
     Crash,
+    /// peer drops the current connection abruptly: the sender's read fails with ConnectionReset, not EOF
+    Reset,
     /// peer ACKs the oldest un-ACKed frame of the current connection
     Ack,
     AckAll,
@@ -79,6 +81,7 @@ impl Op {
             Op::Unlisten => "unlisten".into(),
             Op::Close => "close".into(),
             Op::Crash => "crash".into(),
+            Op::Reset => "reset".into(),
             Op::Ack => "ack".into(),
             Op::AckAll => "ackall".into(),
             Op::Bogus => "bogus".into(),
@@ -107,6 +110,7 @@ impl Op {
             ("unlisten", _) => Op::Unlisten,
             ("close", _) => Op::Close,
             ("crash", _) => Op::Crash,
+            ("reset", _) => Op::Reset,
             ("ack", _) => Op::Ack,
             ("ackall", _) => Op::AckAll,
             ("bogus", _) => Op::Bogus,
@@ -375,6 +379,10 @@ impl World {
     }
 
     async fn close_current(&mut self) {
+        self.close_current_how(false).await
+    }
+
+    async fn close_current_how(&mut self, abort: bool) {
         if let Some(ci) = self.conns.len().checked_sub(1) {
             if self.conns[ci].framed.is_some() {
                 // complete frames already on the wire are observed (not processed / ACKed) before the drop;
@@ -382,7 +390,12 @@ impl World {
                 let delivered = !self.conns[ci].stalled;
                 self.read_available_as(ci, delivered).await;
                 if self.conns[ci].framed.is_some() {
-                    self.conns[ci].framed = None;
+                    let f = self.conns[ci].framed.take();
+                    if abort {
+                        if let Some(f) = f {
+                            f.into_inner().abort();
+                        }
+                    }
                     self.conns[ci].peer_closed = true;
                 }
             }
@@ -468,6 +481,7 @@ impl World {
             }
             Op::Unlisten => self.listener = None,
             Op::Close => self.close_current().await,
+            Op::Reset => self.close_current_how(true).await,
             Op::Crash => {
                 self.close_current().await;
                 self.listener = None;
@@ -1308,6 +1322,28 @@ fn directed(thorough: bool) -> Vec<Vec<Op>> {
             }
         }
     }
+    // the connection breaks with a read ERROR (the peer died with unread data: RST) instead of EOF
+    let mut resets = Vec::new();
+    for n in 1..=3usize {
+        for j in 0..=n {
+            for late_send in 0..2 {
+                let mut ops = vec![Op::Listen];
+                for _ in 0..n {
+                    ops.push(Op::Send);
+                }
+                for _ in 0..j {
+                    ops.push(Op::Ack);
+                }
+                ops.push(Op::Reset);
+                if late_send == 1 {
+                    ops.push(Op::Send);
+                }
+                ops.push(Op::Fire);
+                ops.push(Op::AckAll);
+                resets.push(ops);
+            }
+        }
+    }
     // sender started before the peer exists, messages and cancellations while it backs off
     for r in 1..=(if thorough { 11 } else { 7 }) {
         let mut ops = vec![Op::Send, Op::Send];
@@ -1334,6 +1370,8 @@ fn directed(thorough: bool) -> Vec<Vec<Op>> {
     out.push(vec![Op::Listen, Op::Send, Op::Send, Op::Send, Op::Cancel(1), Op::Ack, Op::Close, Op::Ack, Op::Ack]);
     out.push(vec![Op::Listen, Op::Send, Op::Send, Op::Cancel(0), Op::Cancel(1), Op::Close, Op::Send, Op::AckAll]);
     out.push(vec![Op::Listen, Op::Send, Op::SendAck, Op::SendAck, Op::AckClose, Op::CloseSend, Op::AckAll]);
+    // appended last: the catalogue entries above keep their positions
+    out.extend(resets);
     out
 }
 
